@@ -52,19 +52,30 @@ Example C01_nonvacuous :
 Proof. split; [simpl; tauto|split; vm_compute; reflexivity]. Qed.
 Print Assumptions C01_nonvacuous.
 
-(* THE SOURCE TIE for five core mutators.  Gen/Mutators.v holds the bodies of Hypergraph.add_node, add_node_to_edge, remove_edge,
-   remove_node (strong and weak, with its nested loops) and remove_node_from_edge as programs of a small imperative language, regenerated from xgi/core/hypergraph.py on every
-   run (harness/translate_mutators.py, fail-closed).  Under the semantics of Model/PyIR.v (IDDict lookups raise
-   IDNotFound, None keys raise XGIError, set.remove of a missing element raises KeyError, the loop iterates a copy)
-   running them gives exactly the model's state, outcome and warning count: for add_node_to_edge on EVERY state, for add_node whenever the two node tables have the same keys, for the three
-   removals on every state satisfying the class invariant (where the lookups the code makes cannot fail) *)
+(* THE SOURCE TIE for nine core mutators.  Gen/Mutators.v holds the bodies of Hypergraph.add_node, add_node_to_edge, remove_edge,
+   remove_node (strong and weak, with its nested loops), remove_node_from_edge, add_edge, remove_edges_from, clear and clear_edges
+   as programs of a small imperative language, regenerated from xgi/core/hypergraph.py on every run
+   (harness/translate_mutators.py, fail-closed).  Under the semantics of Model/PyIR.v (IDDict lookups raise IDNotFound, None keys
+   raise XGIError, set.remove of a missing element raises KeyError, loops iterate a copy, `members = set(members)`, leading guards
+   that raise or warn-and-return, `uid = next(counter) if idx is None else idx`) running them gives exactly the model's state,
+   outcome and warning count: for add_node_to_edge and clear on EVERY state, for add_node whenever the two node tables have the
+   same keys, for add_edge whenever None is not an edge id (idx = None is Python's None, so `Some LNone` is not a call), for
+   clear_edges whenever the node keys are distinct and not None, and for the removals on every state satisfying the class
+   invariant (where the lookups the code makes cannot fail) *)
 Theorem C01_core_mutators_are_source :
   (forall n a s, keys (h_nattr s) = keys (h_node s) -> run_method_a src_add_node [n] [] a s = add_node n a s) /\
   (forall e n s, run_method src_add_node_to_edge [e; n] [] s = add_node_to_edge e n s) /\
   (forall e s, Inv s -> run_method src_remove_edge [e] [] s = remove_edge1 e s) /\
   (forall n strong re s, Inv s -> run_method src_remove_node [n] [strong; re] s = remove_node n strong re s) /\
-  (forall e n re s, Inv s -> run_method src_remove_node_from_edge [e; n] [re] s = remove_node_from_edge e n re s).
+  (forall e n re s, Inv s -> run_method src_remove_node_from_edge [e; n] [re] s = remove_node_from_edge e n re s) /\
+  (forall members idx a s, idx <> Some LNone -> has LNone (h_edge s) = false ->
+     run_method_m src_add_edge_guards src_add_edge members idx a s = add_edge members idx a s) /\
+  (forall es s, Inv s -> run_method_l src_remove_edges_from es [] s = remove_edges_from es s) /\
+  (forall b s, run_method_l src_clear [] [b] s = clear b s) /\
+  (forall s, NoDup (keys (h_node s)) -> ~ In LNone (keys (h_node s)) -> run_method_l src_clear_edges [] [] s = clear_edges s).
 Proof.
-  split; [exact add_node_is_source|]. split; [exact add_node_to_edge_is_source|]. split; [exact remove_edge_is_source|]. split; [exact remove_node_is_source|exact remove_node_from_edge_is_source].
+  split; [exact add_node_is_source|]. split; [exact add_node_to_edge_is_source|]. split; [exact remove_edge_is_source|].
+  split; [exact remove_node_is_source|]. split; [exact remove_node_from_edge_is_source|]. split; [exact add_edge_is_source|].
+  split; [exact remove_edges_from_is_source|]. split; [exact clear_is_source|exact clear_edges_is_source].
 Qed.
 Print Assumptions C01_core_mutators_are_source.
